@@ -9,6 +9,7 @@ import (
 	"runtime/debug"
 	"sort"
 	"strconv"
+	"strings"
 	"time"
 )
 
@@ -41,11 +42,14 @@ func main() {
 			ids = append(ids, id)
 		}
 		sort.Strings(ids)
-	} else if registry[*prop] != nil {
-		ids = []string{*prop}
 	} else {
-		fmt.Fprintf(os.Stderr, "unknown property %q\n", *prop)
-		os.Exit(2)
+		for _, id := range strings.Split(*prop, ",") {
+			if registry[id] == nil {
+				fmt.Fprintf(os.Stderr, "unknown property %q\n", id)
+				os.Exit(2)
+			}
+			ids = append(ids, id)
+		}
 	}
 	os.Exit(runProps(ids, *tier, seed, *dump))
 }
